@@ -369,7 +369,9 @@ def run_real(ctx, ob, extra_defs=None):
     except BuildError as x:
         return Res(ob, 'error', detail=str(x), secs=time.time() - t0)
     base = ['cbmc', gb, '--function', 'harness', '--unwind', str(ob.unwind)]
-    if ob.unwindset: base += ['--unwindset', ','.join(ob.unwindset)]
+    if ob.unwindset:
+        try: base += ['--unwindset', ','.join(ctx.resolve_unwindset(ob))]
+        except BuildError as x: return Res(ob, 'error', detail=str(x), secs=time.time() - t0)
     base += ['--no-standard-checks', '--no-malloc-may-fail', '--drop-unused-functions', '--slice-formula'] + list(ob.flags)
     if ob.object_bits: base += ['--object-bits', str(ob.object_bits)]
     rc, out, err, secs = sh(base + ['--unwinding-assertions', '--show-properties', '--json-ui'], timeout=120)
